@@ -23,7 +23,10 @@ func init() {
 		Rule: "parts: (A) management, exhaustive: for n<=6 caches sharing a cleaner, every assignment of each cache to {live, released in round 1, released in round 2}; after each ReleaseBuckets every live cache must still be managed, " +
 			"and a Rotate+Cleanup pass must bring the accounted size under the limit; (B) concurrent model-based runs under the race detector: K caller goroutines + one maintenance goroutine (rotate, cleanup, clean-empty-generations, release-buckets), " +
 			"seeded delays at hooks placed between the critical sections of Get/save/recover/Cleanup/ReleaseBuckets, loaders that yield, fail or panic, caches released and created while running (usage protocol respected); " +
-			"monitors: coherence of every returned value, error/panic delivery, accounting equality and bound at quiescent barriers, management. " +
+			"every third run is wide (hundreds of small entries, tiny limit, maintenance every 8-20 ms) so that one pass empties a cache grown past 200 entries (map rebuild) under slow loaders; " +
+			"monitors: coherence of every returned value, error/panic delivery, accounting equality and bound at quiescent barriers, management; " +
+			"(C) scripted shrink-while-loading histories: a cache grown to 190-600 entries in one generation, rotation, 1-6 loads (ok/error/panic) parked in flight, a cleaning pass that drops >= 90 % of the map, loads released: " +
+			"accounted == live (also after another pass; zero after release), every caller got its own loader's outcome. " +
 			"case = one assignment (A) or one run (B); non-trivial (A) = at least one released and one live cache, (B) = the run saw waits on in-flight loads, failures and cleanups; distinct = assignment | (callers, caches, limit class, seed of the delay schedule)",
 		Assumptions: []string{
 			"no lookup is issued on a released cache and no load is in flight when a cache is released (the callers' protocol in seq-db: Release happens under the fraction's write lock)",
@@ -60,6 +63,128 @@ func runC18(w *h.W, batch int) {
 		return
 	}
 	c18Concurrent(w, batch)
+	c18Shrink(w, batch)
+}
+
+// c18Shrink: scripted histories around the map rebuild of a cache that shrank a lot. One cache grows to n >= 200 small
+// entries in one generation; after a rotation k loaders of new keys are parked in flight (some will fail or panic); a
+// cleaning pass then drops the old generation (>= 90 % of the map: the map is rebuilt) with those loads in flight; the loads
+// are let go. At quiescence: accounted size == sum of live entries (also after one more pass and after release: zero), and
+// every caller got its own loader's outcome.
+func c18Shrink(w *h.W, batch int) {
+	r := w.Rng(4242)
+	for ri := 0; ri < 4; ri++ {
+		rr := r.Fork()
+		n := rr.Range(190, 600)
+		k := rr.Range(1, 6)
+		keep := rr.Range(0, 25) // entries of the big generation touched again after the rotation (they survive the pass)
+		limit := uint64(rr.Range(200, 3000))
+		desc := map[string]any{"part": "shrink-while-loading", "entries": n, "loads_in_flight": k, "touched_again": keep, "limit": limit}
+		if !w.Begin(desc) {
+			continue
+		}
+		cl := cache.NewCleaner(limit, nil)
+		c := cache.NewCache[*c18Val](cl, nil)
+		for i := 0; i < n; i++ {
+			key := uint32(i)
+			c.Get(key, func() (*c18Val, int) { return &c18Val{key: key, inv: 1}, 8 })
+		}
+		cl.Rotate()
+		for i := 0; i < keep; i++ {
+			c.Get(uint32(i), func() (*c18Val, int) { return &c18Val{key: uint32(i), inv: 99}, 8 })
+		}
+		gate := make(chan struct{})
+		started := make(chan struct{}, k)
+		type outcome struct {
+			v   *c18Val
+			err error
+			pv  any
+		}
+		outs := make([]outcome, k)
+		modes := make([]int, k)
+		var wg sync.WaitGroup
+		for j := 0; j < k; j++ {
+			modes[j] = h.Pick(rr, []int{0, 0, 0, 1, 2}) // ok, error, panic
+			wg.Add(1)
+			go func(j int) {
+				defer wg.Done()
+				key := uint32(100000 + j)
+				defer func() { outs[j].pv = recover() }()
+				outs[j].v, outs[j].err = c.GetWithError(key, func() (*c18Val, int, error) {
+					started <- struct{}{}
+					<-gate
+					switch modes[j] {
+					case 1:
+						return nil, 0, fmt.Errorf("load %d failed", j)
+					case 2:
+						panic(fmt.Sprintf("load %d panicked", j))
+					}
+					return &c18Val{key: key, inv: uint64(j + 2)}, 16, nil
+				})
+			}(j)
+		}
+		for j := 0; j < k; j++ {
+			<-started
+		}
+		before, _, _ := c.VerifLive()
+		cl.Cleanup(&cache.CleanStat{})
+		after, loading, _ := c.VerifLive()
+		close(gate)
+		wg.Wait()
+		bad := ""
+		for j := 0; j < k && bad == ""; j++ {
+			switch modes[j] {
+			case 0:
+				if outs[j].pv != nil || outs[j].err != nil || outs[j].v == nil || outs[j].v.key != uint32(100000+j) {
+					bad = fmt.Sprintf("caller %d: successful load returned %+v err=%v panic=%v", j, outs[j].v, outs[j].err, outs[j].pv)
+				}
+			case 1:
+				if outs[j].err == nil || outs[j].pv != nil {
+					bad = fmt.Sprintf("caller %d: failing load returned err=%v panic=%v", j, outs[j].err, outs[j].pv)
+				}
+			case 2:
+				if outs[j].pv == nil {
+					bad = fmt.Sprintf("caller %d: panicking load did not panic in its caller", j)
+				}
+			}
+		}
+		_, l2, live := c.VerifLive()
+		if acc := cl.VerifAccountedSize(); bad == "" && (acc != live || l2 != 0) {
+			bad = fmt.Sprintf("after the loads finished: accounted size %d != sum of live entries %d (entries still loading: %d); the pass took the map from %d to %d entries with %d loads in flight", acc, live, l2, before, after, loading)
+		}
+		// (whether a value loaded during the pass is kept is the cache's choice - its generation may have been dropped by the
+		// same pass - so only correctness of what callers got and the accounting are judged)
+		for j := 0; j < k && bad == ""; j++ {
+			if modes[j] != 0 {
+				continue
+			}
+			v := c.Get(uint32(100000+j), func() (*c18Val, int) { return &c18Val{key: uint32(100000 + j), inv: 7777}, 16 })
+			if v == nil || v.key != uint32(100000+j) {
+				bad = fmt.Sprintf("Get of key %d after the pass returned %+v", 100000+j, v)
+			}
+		}
+		cl.Rotate()
+		cl.Cleanup(&cache.CleanStat{})
+		_, _, live = c.VerifLive()
+		if acc := cl.VerifAccountedSize(); bad == "" && acc != live {
+			bad = fmt.Sprintf("after one more pass: accounted size %d != sum of live entries %d", acc, live)
+		}
+		c.Release()
+		cl.ReleaseBuckets()
+		cl.CleanEmptyGenerations()
+		if acc := cl.VerifAccountedSize(); bad == "" && acc != 0 {
+			bad = fmt.Sprintf("%d bytes still accounted after the only cache was released", acc)
+		}
+		w.Count("shrink_histories", 1)
+		if after*10 <= before {
+			w.Count("shrink_histories_with_map_rebuild_condition", 1)
+		}
+		if bad != "" {
+			w.Violation("C18:shrink:"+errSig(bad), map[string]any{"diff": bad, "case": desc})
+			continue
+		}
+		w.Held(fmt.Sprintf("shrink|n%d|k%d|keep%d|%v", n/100, k, keep/5, modes), before >= 200 && after*10 <= before)
+	}
 }
 
 // ---------- (A) management, exhaustive over assignments
@@ -202,13 +327,27 @@ func c18Concurrent(w *h.W, batch int) {
 			ops = 6000
 		}
 		keys := uint32(rr.Range(3, 40))
+		// wide runs: hundreds of small entries per cache, a tiny limit and a maintenance loop that comes round only every few
+		// milliseconds, so that one cleaning pass empties a cache that had grown past 200 entries (the map is rebuilt then)
+		// while slow loaders are in flight
+		wide := ri == 2
+		if wide {
+			keys = uint32(rr.Range(400, 1500))
+			limit = uint64(h.Pick(rr, []int{2000, 6000}))
+			nCaches = rr.Range(1, 2)
+			callers = rr.Range(4, 8)
+			ops *= 2
+		}
 		procs := h.Pick(rr, []int{2, 4, 16})
-		desc := map[string]any{"part": "concurrent", "callers": callers, "caches": nCaches, "limit": limit, "ops_per_caller": ops, "keys": keys, "gomaxprocs": procs, "delay_seed": rr.U64()}
+		desc := map[string]any{"part": "concurrent", "callers": callers, "caches": nCaches, "limit": limit, "ops_per_caller": ops, "keys": keys, "wide": wide, "gomaxprocs": procs, "delay_seed": rr.U64()}
 		if !w.Begin(desc) {
 			continue
 		}
 		prev := runtime.GOMAXPROCS(procs)
 		ctl := &hk.Ctl{Seed: desc["delay_seed"].(uint64), Delay: map[string]bool{"*": true}, MaxSleep: 100 * time.Microsecond}
+		if wide {
+			ctl.MaxSleep = 15 * time.Microsecond
+		}
 		hk.Install(ctl)
 		run := &c18Run{}
 		cl := cache.NewCleaner(limit, nil)
@@ -257,7 +396,9 @@ func c18Concurrent(w *h.W, batch int) {
 					cachesMu.RUnlock()
 				}
 				world.RUnlock()
-				if mr.Chance(1, 3) {
+				if wide {
+					time.Sleep(time.Duration(8000+mr.Intn(12000)) * time.Microsecond)
+				} else if mr.Chance(1, 3) {
 					runtime.Gosched()
 				} else {
 					time.Sleep(time.Duration(mr.Intn(300)) * time.Microsecond)
@@ -287,6 +428,11 @@ func c18Concurrent(w *h.W, batch int) {
 					mode = 2 // Get has no error channel
 				}
 				size := cr.Range(100, 4000)
+				slow := false
+				if wide {
+					size = cr.Range(8, 64)
+					slow = cr.Chance(1, 3)
+				}
 				var myInv uint64
 				var myErr error
 				var myPanic any
@@ -297,6 +443,9 @@ func c18Concurrent(w *h.W, batch int) {
 					run.loads.Store(inv, ld)
 					v := &c18Val{cache: cc.id, key: key, inv: inv}
 					runtime.Gosched() // a waiter must never see the value before the loader returned
+					if slow {
+						time.Sleep(time.Duration(200+inv%7*200) * time.Microsecond) // long enough to be in flight across a cleaning pass
+					}
 					switch mode {
 					case 0:
 						myErr = fmt.Errorf("load %d failed", inv)
